@@ -41,6 +41,9 @@ func runC05(c *Ctx) {
 	r.Doc("P5", "(= B4) the number of vacant handlers is HandlersQuantity - sum(actual): handlers whose release was not read yet are not vacant", 2)
 	r.Doc("P6", "(= B13) HandlersQuantity reaches the inner discipline as configured (the shares are shares of the handlers that exist)", 2)
 	r.Doc("P8", "(= B3) the allotment map is written only by its reset, the checked divisions, the top-up and the per-item decrement", 12)
+	r.Doc("P12", "(= X13, N15) the simplified disciplines start exactly HandlersQuantity handlers (what is allotted is handled: no share stays in the output buffer)", 2)
+	checkHandlersStarted(c, c.V1, "P12")
+	checkHandlersStarted(c, c.V2, "P12")
 	r.Doc("P11", "(= N3) round structure: wait -> spend -> re-divide the remainder -> spend again when filled; no phase is skipped for another reason", 2)
 	r.Doc("P10", "(= B9) actual[k] -= 1 exactly once per release received, where it is received: no handler is counted busy after its release was read", 7)
 	r.Doc("P7", "(= N2 no-proceed) the round start answers 'cannot proceed' only when no handler is vacant", 2)
@@ -1051,6 +1054,17 @@ func runC17(c *Ctx) {
 			if (o.Rule == "N2" && strings.Contains(o.Key, "#release-wait")) || o.Rule == "E13" {
 				r.Check(o.OK, "R7", o.Key, o.Site, o.Detail, o.Detail)
 			}
+		}
+	}
+	// R9 (= N7, N8): "after AddInput(ch, p) returns, elements of ch are delivered": also when p has no
+	// share of its own (more inputs than handlers) - such a priority is served by the second phase
+	// only, whose candidates are selected by the allotment, not by the shares
+	r.Doc("R9", "(= C06 N7, N8) second-phase candidates are the priorities that used up their allotment / are below their hypothetical share - whatever their own share is", 6)
+	{
+		sub := &Ctx{V1: c.V1, V2: c.V2, Tier: c.Tier, R: NewReport("tmp", c.Tier)}
+		checkN78(sub, pr)
+		for _, o := range sub.R.Obls {
+			r.Check(o.OK, "R9", o.Key, o.Site, o.Detail, o.Detail)
 		}
 	}
 	// R8 (= B14): commands are applied between the uses of the round's allotment
